@@ -342,7 +342,17 @@ func (e *unitEnv) run() []unit {
 				out = append(out, uPoly)
 			}
 			if isInt(rv.Type()) || isIntVec(rv.Type()) {
-				out[i] = uJoin(out[i], e.get(rv), e.ua.p.Pos(ret.Pos()))
+				u := e.get(rv)
+				// a shortcut taken because another vector is all ones (`if allOnes(rhs) { return lhs }`): the value
+				// returned equals its element-wise product with that vector, and carries the product's unit
+				if isIntVec(rv.Type()) {
+					for _, w := range allOnesGuards(ret.Block()) {
+						if vecBaseDeep(w) != vecBaseDeep(rv) {
+							u = uMul(u, e.get(w))
+						}
+					}
+				}
+				out[i] = uJoin(out[i], u, e.ua.p.Pos(ret.Pos()))
 			}
 		}
 	}
@@ -498,4 +508,122 @@ func isImplValue(v ssa.Value) bool {
 		}
 	}
 	return true
+}
+
+// allOnesGuards: the vectors known to hold only ones in block b — arguments of a call of an all-ones predicate
+// whose true edge dominates b.
+func allOnesGuards(b *ssa.BasicBlock) []ssa.Value {
+	var out []ssa.Value
+	for _, g := range guardsAt(b) {
+		if !g.Val {
+			continue
+		}
+		c, ok := g.Cond.(*ssa.Call)
+		if !ok || len(c.Common().Args) != 1 || c.Common().IsInvoke() {
+			continue
+		}
+		if f := c.Common().StaticCallee(); f != nil && isAllOnesPredicate(f) {
+			out = append(out, c.Common().Args[0])
+		}
+	}
+	return out
+}
+
+var allOnesMemo = map[*ssa.Function]bool{}
+
+// isAllOnesPredicate: f(v []int) bool returns true only if every element of v equals 1 — every `return false` is
+// reached only… no: every `return true` lies outside the scan loop, and inside the loop every element that is not 1
+// leads to `return false` (the loop body's only way on is the edge on which the element read equals 1).
+func isAllOnesPredicate(f *ssa.Function) bool {
+	if v, ok := allOnesMemo[f]; ok {
+		return v
+	}
+	res := func() bool {
+		if len(f.Blocks) == 0 || len(f.Params) != 1 || !isIntVec(f.Params[0].Type()) || f.Signature.Results().Len() != 1 {
+			return false
+		}
+		if b, ok := f.Signature.Results().At(0).Type().Underlying().(*types.Basic); !ok || b.Kind() != types.Bool {
+			return false
+		}
+		loops := findLoops(f)
+		if len(loops) != 1 {
+			return false
+		}
+		l := loops[0]
+		// the loop visits every element: a range loop or a counting loop over len(v) is assumed from its shape:
+		// exactly one element read v[i] inside the loop, compared with 1
+		var test *ssa.If
+		var eqOnTrue bool
+		nReads := 0
+		for b := range l.Blocks {
+			for _, ins := range b.Instrs {
+				if ld, ok := ins.(*ssa.UnOp); ok && ld.Op == token.MUL {
+					if ia, ok := ld.X.(*ssa.IndexAddr); ok && vecBaseDeep(ia.X) == ssa.Value(f.Params[0]) {
+						nReads++
+					}
+				}
+			}
+			iff, ok := b.Instrs[len(b.Instrs)-1].(*ssa.If)
+			if !ok || b == l.Header {
+				continue
+			}
+			bo, ok := iff.Cond.(*ssa.BinOp)
+			if !ok || (bo.Op != token.EQL && bo.Op != token.NEQ) {
+				return false
+			}
+			x, y := bo.X, bo.Y
+			if c, isC := constInt(x); isC && c == 1 {
+				x, y = y, x
+			}
+			if c, isC := constInt(y); !isC || c != 1 {
+				return false
+			}
+			ld, ok := x.(*ssa.UnOp)
+			if !ok {
+				return false
+			}
+			ia, ok := ld.X.(*ssa.IndexAddr)
+			if !ok || vecBaseDeep(ia.X) != ssa.Value(f.Params[0]) {
+				return false
+			}
+			if test != nil {
+				return false
+			}
+			test, eqOnTrue = iff, bo.Op == token.EQL
+		}
+		if test == nil || nReads != 1 {
+			return false
+		}
+		// the not-equal edge leads to `return false` without coming back to the loop
+		ne := test.Block().Succs[0]
+		if eqOnTrue {
+			ne = test.Block().Succs[1]
+		}
+		if l.Blocks[ne] {
+			return false
+		}
+		rt, ok := ne.Instrs[len(ne.Instrs)-1].(*ssa.Return)
+		if !ok || len(ne.Instrs) != 1 {
+			return false
+		}
+		if c, ok := rt.Results[0].(*ssa.Const); !ok || c.Value == nil || c.Value.String() != "false" {
+			return false
+		}
+		// every other return is `true`… and is reached only by leaving the loop at its header
+		for _, r2 := range returnsOf(f) {
+			if r2 == rt {
+				continue
+			}
+			c, ok := r2.Results[0].(*ssa.Const)
+			if !ok || c.Value == nil || c.Value.String() != "true" {
+				return false
+			}
+			if l.Blocks[r2.Block()] {
+				return false
+			}
+		}
+		return true
+	}()
+	allOnesMemo[f] = res
+	return res
 }
